@@ -106,9 +106,20 @@ func vfTOML(cfg map[string]any, names []string) string {
 			fmt.Fprintf(&b, "default_lifetime = \"%ds\"\n", l)
 		}
 		b.WriteString("mtu = 1500\n")
+		// every header field away from its default and one option of every kind, so that "all other content
+		// unchanged" (C04, C08) has something to lose
+		if !vfBool(cfg, "plain", false) {
+			b.WriteString("preference = \"high\"\nmanaged = true\nother_config = true\nhop_limit = 32\n")
+			b.WriteString("reachable_time = \"30s\"\nretransmit_timer = \"1s\"\ncaptive_portal = \"https://portal.example/\"\n")
+		}
 		b.WriteString(vfStr(cfg, "extra", ""))
 		b.WriteString("  [[interfaces.prefix]]\n  prefix = \"2001:db8::/64\"\n")
 		b.WriteString("  [[interfaces.rdnss]]\n  servers = [\"2001:db8::53\"]\n")
+		if !vfBool(cfg, "plain", false) {
+			b.WriteString("  [[interfaces.route]]\n  prefix = \"2001:db8:f::/48\"\n  preference = \"low\"\n")
+			b.WriteString("  [[interfaces.dnssl]]\n  domain_names = [\"lan.example\"]\n")
+			b.WriteString("  [[interfaces.pref64]]\n  prefix = \"64:ff9b::/96\"\n")
+		}
 	}
 	return b.String()
 }
@@ -377,7 +388,9 @@ func vfRunScenario(t *testing.T, rec *vfRec, sc map[string]any) {
 			if src != "unspec" {
 				from = netip.MustParseAddr(src)
 			}
-			if vfBool(st, "zone", false) {
+			// like ndp.Conn, the stub reports every source address with the interface as its zone (the unspecified
+			// address included) unless the scenario says otherwise
+			if vfBool(st, "zone", true) {
 				from = from.WithZone(ifi)
 			}
 			var m ndp.Message
